@@ -112,6 +112,13 @@ CLAIMED = {
         "Trusts scipy ConvexHull equations as the description of the hull handed to the code and HiGHS optima (slice supports compared at 1e-6 of the cloud size).",
         "DESIGN.md section 6 C17",
     ),
+    "C12": (
+        "Hypothesis property-based testing: arithmetic identities (totals, one common factor, hue direction) in L1-normalised coordinates plus an LP for the largest admissible common factor and for membership in the chromatic gamut",
+        "Generated adapted systems (neutral point inside the chromatic gamut; di-, tri-, tetrachromats; baseline; explicit/default neutral; relative/absolute) x target sets with inside/outside/neutral/all-zero rows; "
+        "the contraction factor must equal the LP optimum (largest admissible), inside sets must come back bit-identical, zero rows stay zero; L1 scaling identities.",
+        "Cases whose neutral point is not strictly inside a full-dimensional chromatic gamut are skipped (counted); HiGHS accuracy 1e-9.",
+        "DESIGN.md section 6 C12",
+    ),
 }
 
 PENDING_REASON = "check not built yet in this revision (planned, see DESIGN.md section 6); not claimed until its check runs quietly on the unchanged tree"
